@@ -10,7 +10,7 @@ import subprocess
 import sys
 import tempfile
 
-from hplverif import astx, core, gen, lib, mast
+from hplverif import astx, core, gen, lib, mast, relatives
 from hplverif.checks import c18
 from hplverif.core import Violation
 from hplverif.tape import from_tape
@@ -264,6 +264,13 @@ def shard(ctx, shard_no, nshards, n, n_proc):
     def body(inp):
         r = sub_cli(inp)
         ctx.case((inp['mode'], inp['json'], inp['text']), _nontrivial(inp, r), f'{inp["mode"]}:{r}', sample={'mode': inp['mode'], 'json': inp['json'], 'text': inp['text'][:200]})
+        if r == 'accepted-json' and not inp.get('raw_latin1'):
+            # the next calls in this process: close relatives (other annotations, equal numbers spelled differently,
+            # aliases renamed) - equal or nearly equal ASTs whose documents must still be their own
+            for t in relatives.texts(inp['text']):
+                rel = dict(inp, text=t)
+                r2 = sub_cli(rel)
+                ctx.case((inp['mode'], inp['json'], t), _nontrivial(rel, r2), f'{inp["mode"]}:relative:{r2}')
 
     with ctx.timed('in-process'):
         core.run_hypothesis(ctx, 'cli', from_tape(gen_case, 2560), body, n)
